@@ -5,6 +5,7 @@ go 1.26.8
 require (
 	github.com/ansible/receptor v0.0.0
 	github.com/fsnotify/fsnotify v1.7.0
+	github.com/minio/highwayhash v1.0.3
 )
 
 require (
@@ -32,7 +33,6 @@ require (
 	github.com/jupp0r/go-priority-queue v0.0.0-20160601094913-ab1073853bde // indirect
 	github.com/magiconair/properties v1.8.7 // indirect
 	github.com/mailru/easyjson v0.7.7 // indirect
-	github.com/minio/highwayhash v1.0.3 // indirect
 	github.com/mitchellh/mapstructure v1.5.0 // indirect
 	github.com/moby/spdystream v0.2.0 // indirect
 	github.com/modern-go/concurrent v0.0.0-20180306012644-bacd9c7ef1dd // indirect
